@@ -17,7 +17,7 @@ import itertools
 
 import numpy as onp
 
-from mc.core import stable_hash
+from mc.core import stable_hash, horizon, HorizonExceeded
 
 ID = "C07"
 TITLE = ("reverse-mode derivatives through nonlinear_solve / nonlinear_solve_with_state exist and equal -v'H^-1 G_k; "
@@ -29,9 +29,11 @@ RULE = ("E-PROD (ift): dimension n (2,3; thorough also 5) x parameter point (ful
         "(quick <=1, thorough full) over {start guess, objective's previous parameters, which slots are present} x entry "
         "{nonlinear_solve, nonlinear_solve_with_state} x slot {guess, 0 bc, 1 state, 2 design, 4 time} x EVERY basis "
         "cotangent e_i. Non-trivial = the expected cotangent is > 100 tau (measured), i.e. a zero or missing term would be "
-        "seen. E-BFS (chain): every action sequence of length <= 3 over 3 load actions x quartic coefficient x entry, "
-        "replayed from the first step; every component of the last solution is differentiated w.r.t. all first-step "
-        "parameters. E-PROD (helpers): element order {1,2} x material {Neohookean, J2Plastic} x (displacement, previous "
+        "seen; plus jax.grad of a generic linear functional (non-basis cotangent) at the base point. E-BFS (chain): every "
+        "action sequence of length <= depth (3 quick, 4 thorough) over 3 load actions (with_state: bc increment + time "
+        "increment + state-update law; nonlinear_solve: design-update law) x quartic coefficient x entry, replayed from "
+        "the first step; every component of the last solution is differentiated w.r.t. all first-step parameters; "
+        "non-trivial = length >= 2 and expected derivative > 100 tau. E-PROD (helpers): element order {1,2} x material {Neohookean, J2Plastic} x (displacement, previous "
         "state) configurations x helper x EVERY basis cotangent; non-trivial = the dense Jacobian block is non-zero and, "
         "for J2, the configuration is yielding (measured from the eqps increment). E-PROD (fs): order x mode x every "
         "single node x component x {+-1e-3, +-0.1}.")
@@ -72,12 +74,14 @@ TAU_FS = 1e-14
 TAU_FS_JIT = 1e-13      # the same constructor traced and compiled: XLA may re-associate (observed 2.7e-16)
 SOLVER_TOL = 1e-11
 CG_RATIO = 1e-12
+HORIZON_S = 60.0
 
 
 # ---------------------------------------------------------------------------------------------------
 def bounds(tier):
     return {"ift_dims": _ift_dims(tier), "ift_points": 81, "ift_minor_axes": len(_minor_axes(tier)), "slots": ["guess", 0, 1, 2, 4],
-            "entries": ["nonlinear_solve", "nonlinear_solve_with_state"], "chain_depth": 3, "chain_actions": 3,
+            "entries": ["nonlinear_solve", "nonlinear_solve_with_state"], "chain_depth": _chain_depth(tier), "chain_actions": 3,
+            "chain_starts": 1 if tier == "quick" else 2,
             "helper_orders": [1, 2], "helper_materials": ["neohookean", "j2-small", "j2-large (quick: state-update products on order 1 only)"],
             "fs_perturbations": ["+1e-3", "-1e-3", "+0.1", "-0.1"], "fs_modes": ["cartesian", "axisymmetric"]}
 
@@ -145,7 +149,9 @@ def _viol(rec, key, cid, detail):
 
 
 def _lib_exc(e):
-    """'exception:<Type>' for a library exception; re-raises harness bugs."""
+    """('exception:<Type>@<file>:<function of the innermost library frame>', same) for a library exception; re-raises
+    harness bugs. The raise site is part of the finding key so that a different exception of the same type from another
+    place is a different finding."""
     from mc.runner import exception_key
     ek = exception_key(e)
     if ek.endswith("@harness"):
@@ -153,10 +159,10 @@ def _lib_exc(e):
         c = e.__cause__ or e.__context__
         while c is not None:
             if not exception_key(c).endswith("@harness"):
-                return "exception:%s" % type(e).__name__, exception_key(c)
+                return exception_key(c).replace(type(c).__name__, type(e).__name__, 1), exception_key(c)
             c = c.__cause__ or c.__context__
         raise e
-    return "exception:%s" % type(e).__name__, ek
+    return ek, ek
 
 
 # ---------------------------------------------------------------------------------------------------
@@ -316,9 +322,14 @@ def _run_ift(g, tier, seed, rec):
             fn = lambda u, q: NS.nonlinear_solve_with_state(obj, st, u, q)      # noqa: E731
             args = (guess, P)
         try:
-            with _quiet():
+            with _quiet(), horizon(HORIZON_S):
                 obj.update_precond(guess)
                 xlib, pull = jax.vjp(fn, *args)
+        except HorizonExceeded:
+            for (s, i), cid in cids.items():
+                if rec.want(cid):
+                    rec.noverdict(cid, "horizon")
+            continue
         except Exception as e:  # noqa
             sig, where = _lib_exc(e)
             for (s, i), cid in cids.items():
@@ -344,8 +355,12 @@ def _run_ift(g, tier, seed, rec):
             if not want:
                 continue
             try:
-                with _quiet():
+                with _quiet(), horizon(HORIZON_S):
                     ct = pull(jnp.array(v))
+            except HorizonExceeded:
+                for s in want:
+                    rec.noverdict(cids[(s, i)], "horizon")
+                continue
             except Exception as e:  # noqa
                 sig, where = _lib_exc(e)
                 for s in want:
@@ -407,6 +422,62 @@ def _run_ift(g, tier, seed, rec):
                     rec.case(cid, nontrivial=nontriv, outcome="ok" if nontriv else "ok-zero-derivative",
                              sample=({"case": cid, "observed": obs, "expected": exp, "tau": tau}
                                      if stable_hash(cid) % 400 == 0 else None))
+
+
+        # jax.grad of a generic linear functional r.x*(p) (a non-basis cotangent through the other public transformation)
+        if lab == "aaaa" and gl == "zero" and ol == "same":
+            r = onp.cos(0.7 * onp.arange(n) + 0.3)
+            gslots = [s for s in slots if s != "guess"]
+            gcids = {s: "%s;slot=%s;v=generic-grad" % (base_cid, s) for s in gslots}
+            if any(rec.want(c) for c in gcids.values()):
+                rj = jnp.array(r)
+                obj.p = Objective.param_index_update(P, 2, Pold[2]) if entry == "ns" else Pold
+                try:
+                    with _quiet(), horizon(HORIZON_S):
+                        obj.update_precond(guess)
+                        gr = jax.grad(lambda q: rj @ fn(guess, q))(args[1])
+                except HorizonExceeded:
+                    for s in gslots:
+                        rec.noverdict(gcids[s], "horizon")
+                    continue
+                except Exception as e:  # noqa
+                    sig, where = _lib_exc(e)
+                    for s in gslots:
+                        if rec.want(gcids[s]):
+                            _viol(rec, "%s|reverse-rule|%s" % (ename, sig), gcids[s], {"error": repr(e)[:400], "where": where, "via": "jax.grad"})
+                            rec.case(gcids[s], outcome="exception-reverse")
+                    rec.branch("reverse-rule:exception")
+                    continue
+                rec.branch("jax.grad:returned")
+                for s in gslots:
+                    cid = gcids[s]
+                    if not rec.want(cid):
+                        continue
+                    got = gr if entry == "ns" else gr[s]
+                    if entry == "ws" and pl == "bd" and s in (1, 4):
+                        if got is not None:
+                            _viol(rec, "%s|slot=%d|absent-slot-not-None" % (ename, s), cid, {"observed": repr(got)})
+                        rec.case(cid, nontrivial=False, outcome="ok-absent" if got is None else "violating")
+                        continue
+                    sl = R["slots"][s]
+                    exp = r @ sl["dxdp"]
+                    rn = float(onp.linalg.norm(r))
+                    tau = (TAU_IFT * R["Hinv_norm"] * sl["Gnorm"] + 100.0 * SOLVER_TOL * R["Hinv_norm"] * sl["lip"]) * rn + 1e-14
+                    obs = None if got is None else onp.array(got, dtype=float).reshape(-1)
+                    if obs is None or obs.shape != exp.shape:
+                        _viol(rec, "%s|slot=%d|cotangent-shape" % (ename, s), cid, {"observed": repr(got), "expected": exp})
+                        rec.case(cid, outcome="violating")
+                        continue
+                    fin = bool(onp.all(onp.isfinite(obs)))
+                    err = float(onp.max(onp.abs(obs - exp))) if fin else float("nan")
+                    rec.track_max("ift_err_over_tau", err / tau)
+                    if not err <= tau:
+                        _viol(rec, "%s|slot=%d|%s" % (ename, s, "cotangent-mismatch" if fin else "nonfinite"), cid,
+                              {"observed": obs, "expected": exp, "tau": tau, "cotangent": r, "via": "jax.grad", "x_ref": xs,
+                               "p0": p0, "p1": p1r, "p2": p2, "p4": p4r, "c4": c4})
+                        rec.case(cid, nontrivial=True, outcome="violating")
+                    else:
+                        rec.case(cid, nontrivial=bool(onp.max(onp.abs(exp)) > 100 * tau), outcome="ok")
 
 
 # ---------------------------------------------------------------------------------------------------
@@ -504,9 +575,14 @@ def _run_chain(g, tier, seed, rec):
                 obj.p = Objective.Params(jnp.array(p0), jnp.array(p1), jnp.array(p2), c4, jnp.array(p4))
                 rec.track_max("chain_cond_H", kappa)
                 try:
-                    with _quiet():
+                    with _quiet(), horizon(HORIZON_S):
                         obj.update_precond(jnp.zeros(n))
                         xlib, pull = jax.vjp(fn, *args)
+                except HorizonExceeded:
+                    for cid in cids:
+                        if rec.want(cid):
+                            rec.noverdict(cid, "horizon")
+                    continue
                 except Exception as e:  # noqa
                     sig, where = _lib_exc(e)
                     for cid in cids:
@@ -534,8 +610,11 @@ def _run_chain(g, tier, seed, rec):
                     v = onp.zeros(n)
                     v[i] = 1.0
                     try:
-                        with _quiet():
+                        with _quiet(), horizon(HORIZON_S):
                             ct = pull(jnp.array(v))
+                    except HorizonExceeded:
+                        rec.noverdict(cid, "horizon")
+                        continue
                     except Exception as e:  # noqa
                         sig, where = _lib_exc(e)
                         _viol(rec, "%s|reverse-rule|%s" % (ename, sig), cid, {"error": repr(e)[:400], "where": where, "sequence": sl})
